@@ -116,7 +116,7 @@ def _worker(args):
 
 def check(tier):
     ck = core.Check("C13", tier)
-    shards, n = (16, 900) if tier == "quick" else (64, 6000)
+    shards, n = (16, 2000) if tier == "quick" else (64, 6000)
     res = core.pmap(_worker, [(ck.seed, i, n, "vf") for i in range(shards)])
     counters = sem.merge(ck, res)
     ck.cov["rule"] = ("cases: one grammar object (pool/random/mutant/error grammars, names and arrays of the definition "
